@@ -633,8 +633,19 @@ func checkOrphanPass(c *Ctx, fn *ssa.Function) {
 			if hc, ok := strip(kv).(*ssa.Call); ok && len(hc.Call.Args) == 1 {
 				kv = hc.Call.Args[0]
 			}
+			// ... or one Marshal() call on a key chosen by the cast: then the alternatives are those of the receiver
+			viaRecv := false
+			if mc, ok := strip(kv).(*ssa.Call); ok && mc.Call.IsInvoke() && mc.Call.Method.Name() == "Marshal" {
+				if _, isPhi := strip(mc.Call.Value).(*ssa.Phi); isPhi {
+					kv, viaRecv = mc.Call.Value, true
+				}
+			}
 			for _, lf := range w.Leaves(kv, mu) {
 				ke := w.Expr(lf.Val)
+				if viaRecv {
+					// render as the blob of that receiver, in the form the tests below expect
+					ke = "Marshal>(" + ke + ")"
+				}
 				castOK, castFailed := false, false
 				for l := range lf.Facts {
 					if y, isNil, ok := nilTest(l); ok {
